@@ -163,3 +163,83 @@ func genEnum(stream string, limit int, outp string) {
 		}
 	}
 }
+
+// genEnum2: the bounded-exhaustive MULTI-step enumeration: every sequence of k operations over a tiny alphabet
+// (requests x nonce {empty, n1, n2} x with/without error_detail, sends ok / failed, the warming mark) from two start
+// states.  Quick: all 2-step SotW sequences (EDS, CDS) and all 2-step delta sequences for EDS; thorough: all 3-step SotW
+// sequences and all 2-step delta sequences for EDS, CDS and WDS.
+func genEnum2(limit int, outp string) {
+	out := wire.Create(outp)
+	defer out.Close()
+	thorough := os.Getenv("VERIF_TIER") == "thorough"
+	c := 0
+	emit := func(t string, start [][]string, seq [][]string) bool {
+		if limit > 0 && c >= limit {
+			return false
+		}
+		out.Line("case", strconv.Itoa(c), "enum2")
+		c++
+		for _, l := range start {
+			out.Line(l...)
+		}
+		for _, l := range seq {
+			out.Line(l...)
+		}
+		return true
+	}
+	var rec func(t string, start [][]string, alpha [][]string, k int, seq [][]string) bool
+	rec = func(t string, start [][]string, alpha [][]string, k int, seq [][]string) bool {
+		if k == 0 {
+			return emit(t, start, seq)
+		}
+		for _, op := range alpha {
+			if !rec(t, start, alpha, k-1, append(seq[:len(seq):len(seq)], op)) {
+				return false
+			}
+		}
+		return true
+	}
+	depth := 2
+	if thorough {
+		depth = 3
+	}
+	for _, t := range []string{"EDS", "CDS"} {
+		var alpha [][]string
+		for _, names := range []string{"-", "a", "a,b"} {
+			for _, nonce := range []string{"~", "n1", "n2"} {
+				for _, e := range []string{"-", "e:boom"} {
+					alpha = append(alpha, []string{"req", t, names, nonce, e})
+				}
+			}
+		}
+		alpha = append(alpha, []string{"send", t, "n1", "1"}, []string{"send", t, "n2", "1"}, []string{"send", t, "n1", "0"}, []string{"always", t})
+		for _, start := range [][][]string{nil, {{"req", t, "a", "~", "-"}, {"send", t, "n1", "1"}}} {
+			if !rec(t, start, alpha, depth, nil) {
+				return
+			}
+		}
+	}
+	dtypes := []string{"EDS"}
+	if thorough {
+		dtypes = []string{"EDS", "CDS", "WDS"}
+	}
+	for _, t := range dtypes {
+		var alpha [][]string
+		for _, sub := range []string{"-", "a", "*"} {
+			for _, unsub := range []string{"-", "a"} {
+				for _, nonce := range []string{"~", "n1", "n2"} {
+					for _, e := range []string{"-", "e:boom"} {
+						alpha = append(alpha, []string{"dreq", t, sub, unsub, "-", nonce, e})
+					}
+				}
+			}
+		}
+		alpha = append(alpha, []string{"dsend", t, "n1", "nil", "1"}, []string{"dsend", t, "n2", "nil", "1"}, []string{"dsend", t, "n1", "a", "1"},
+			[]string{"dsend", t, "n1", "nil", "0"}, []string{"always", t})
+		for _, start := range [][][]string{nil, {{"dreq", t, "a", "-", "-", "~", "-"}, {"dsend", t, "n1", "nil", "1"}}} {
+			if !rec(t, start, alpha, 2, nil) {
+				return
+			}
+		}
+	}
+}
